@@ -12,10 +12,22 @@
                   constraints are anchored at an entry of the database so that
                   non-empty results are frequent.
 
+   GenPart contains "h"  NHist histories (Search, part c): a start database, a
+                  pool of two queries and a behaviour of >= NHSteps steps built
+                  ONE TRANSITION PER STEP (every draw is in the state before the
+                  next one depends on it): searches (find through the engine /
+                  the front end / both, page walks, facets; three of four ask
+                  the first query of the pool, so the very same question is
+                  repeated), and changes of the database in between: a swap
+                  (k entries removed + k others stored: the number of primary
+                  keys is unchanged), a lone store / remove, close + open of
+                  another database (of equal size, or any).
+
    The random draws use TLC's seeded generator (-seed).  Every draw is stored
    in the state before it is printed, so a printed case is one consistent value. *)
 EXTENDS Search, Json, Randomization
-CONSTANTS GenPart, NScrub, NDb, NFind, NPages_, NFacet
+CONSTANTS GenPart, NScrub, NDb, NFind, NPages_, NFacet,
+          NHist, NHSteps     \* histories and their minimal length (0 = none)
 
 VARIABLE c
 vars == <<c>>
@@ -54,13 +66,47 @@ DbCase(d) == [kind   |-> "b", db |-> d, bump |-> Pick(BOOLEAN), rev |-> Pick(BOO
               pages  |-> [i \in 1..NPages_ |-> [q |-> RndQuery(d), L |-> Pick(PageLimit \ {NOLIMIT})]],
               facets |-> [i \in 1..NFacet |-> [q |-> RndQuery(d), d |-> Pick(Dims)]]]
 
+(* ---- histories ---- *)
+HistDbs(n) == RandomSetOfSubsets((n + 1) \div 2, 5, Grid) \cup RandomSetOfSubsets((n + 1) \div 2, 12, Grid)
+HistStart(d) == [kind |-> "h", db0 |-> d, db |-> d, bump |-> Pick(BOOLEAN), rev |-> Pick(BOOLEAN), off |-> Pick(Offsets),
+                 pool |-> [i \in 1..2 |-> RndQuery(d)], steps |-> <<>>]
+PickQi(x)  == IF Pick(1..4) = 1 THEN 2 ELSE 1
+PickIdx(x) == IF Pick(1..2) = 1 THEN 0 ELSE Pick(PageIndex)
+Push(ss)   == c' = [c EXCEPT !.steps = @ \o ss]
+Change(db, ss) == c' = [c EXCEPT !.db = db, !.steps = @ \o ss]
+Mut(ev, xs) == [ev |-> ev, xs |-> xs]
+(* every bound variable below is a value drawn once (a singleton set is enumerated) *)
+HistNext ==
+    /\ c.kind = "h" /\ Len(c.steps) < NHSteps
+    /\ \E r \in {Pick(1..12)} :
+         \/ r \in 1..3 /\ \E s \in {[ev |-> "Find", qi |-> PickQi(r), index |-> PickIdx(r), limit |-> Pick(PageLimit),
+                                       via |-> Pick({"db", "fe", "both"})]} : Push(<<s>>)
+         \/ r = 4 /\ \E qi \in {PickQi(r)}, L \in {Pick(PageLimit \ {NOLIMIT})} :
+                        Push(<<[ev |-> "Pages", qi |-> qi, L |-> L, n |-> NPages(Match(c.db, c.pool[qi]), L)]>>)
+         \/ r = 5 /\ \E s \in {[ev |-> "Facet", qi |-> PickQi(r), d |-> Pick(Dims)]} : Push(<<s>>)
+         \/ r \in 6..8 /\ \E k \in {Min2(Pick(1..3), Min2(Cardinality(c.db), Cardinality(Grid \ c.db)))} :
+                           \E rm \in {RandomSubset(k, c.db)}, ad \in {RandomSubset(k, Grid \ c.db)} :
+                              IF Pick(BOOLEAN) THEN Change((c.db \ rm) \cup ad, <<Mut("Remove", rm), Mut("Store", ad)>>)
+                                               ELSE Change((c.db \ rm) \cup ad, <<Mut("Store", ad), Mut("Remove", rm)>>)
+         \/ r = 9 /\ \E ad \in {RandomSubset(Pick(1..2), Grid)} : Change(c.db \cup ad, <<Mut("Store", ad)>>)
+         \/ r = 10 /\ \E rm \in {RandomSubset(Min2(Pick(1..2), Cardinality(c.db)), c.db)} : Change(c.db \ rm, <<Mut("Remove", rm)>>)
+         \/ r = 11 /\ \E nd \in {RandomSubset(Cardinality(c.db), Grid)} : Change(nd, <<Mut("Reopen", nd)>>)
+         \/ r = 12 /\ \E nd \in {RandomSubset(Pick(0..12), Grid)} : Change(nd, <<Mut("Reopen", nd)>>)
+
 Init == c = [kind |-> "root"]
-Next == /\ c.kind = "root"
-        /\ \/ GenPart \in {"a", "ab"} /\ c' \in {[kind |-> "a", e |-> e] : e \in (IF NScrub = 0 THEN Exprs3 ELSE RandomSubset(NScrub, Exprs3))}
-           \/ GenPart \in {"b", "ab"} /\ c' \in {DbCase(d) : d \in GenDbs(NDb)}
+Next == \/ /\ c.kind = "root"
+           /\ \/ GenPart \in {"a", "ab", "abh"} /\ c' \in {[kind |-> "a", e |-> e] : e \in (IF NScrub = 0 THEN Exprs3 ELSE RandomSubset(NScrub, Exprs3))}
+              \/ GenPart \in {"b", "ab", "abh"} /\ c' \in {DbCase(d) : d \in GenDbs(NDb)}
+              \/ GenPart \in {"h", "abh"} /\ NHist > 0 /\ c' \in {HistStart(d) : d \in HistDbs(NHist)}
+        \/ HistNext
 Spec == Init /\ [][Next]_vars
 
 QJson(q) == [hasrun |-> q.hasrun, run |-> ShiftExpr(q.run, c.off), tg |-> q.tg, tk |-> q.tk, al |-> q.al, sv |-> q.sv]
+HStepJson(s) ==
+    CASE s.ev = "Find"  -> [ev |-> "Find", args |-> [q |-> QJson(c.pool[s.qi]), index |-> s.index, limit |-> s.limit, via |-> s.via]]
+      [] s.ev = "Pages" -> [ev |-> "Pages", args |-> [q |-> QJson(c.pool[s.qi]), L |-> s.L, n |-> s.n]]
+      [] s.ev = "Facet" -> [ev |-> "Facet", args |-> [q |-> QJson([c.pool[s.qi] EXCEPT ![s.d] = {}]), d |-> s.d]]
+      [] OTHER          -> [ev |-> s.ev, args |-> [xs |-> ShiftDb(s.xs, c.off)]]
 Emit ==
     CASE c.kind = "a" -> PrintT(<<"CASE", ToJson([kind |-> "a", e |-> c.e])>>)
       [] c.kind = "b" ->
@@ -73,5 +119,9 @@ Emit ==
                                n |-> NPages(Match(c.db, c.pages[i].q), c.pages[i].L)]],
                 facets |-> [i \in DOMAIN c.facets |->
                               [q |-> QJson([c.facets[i].q EXCEPT ![c.facets[i].d] = {}]), d |-> c.facets[i].d]]])>>)
+      [] c.kind = "h" /\ Len(c.steps) >= NHSteps ->
+           PrintT(<<"CASE", ToJson(
+               [kind |-> "h", db |-> ShiftDb(c.db0, c.off), bump |-> c.bump, rev |-> c.rev, off |-> c.off,
+                steps |-> [i \in DOMAIN c.steps |-> HStepJson(c.steps[i])]])>>)
       [] OTHER -> TRUE
 =============================================================================
